@@ -21,7 +21,7 @@ pub struct GenCfg {
 pub const PLAIN: &[&str] = &["a", "b", "c", "d", "item", "name"];
 pub const RICH: &[&str] = &[
     "a", "b", "Item", "item", "type", "ns:a", "x:item", "a-b", "a.b", "a_b", "AB", "Foo", "foo", "FOO", "self", "Self",
-    "Type", "крипта", "é", "String", "TotalPrice", "Total", "Price", "loop", "match", "x1", "text", "text_content",
+    "Type", "крипта", "é", "ЦЕНА", "ÉÜ", "String", "TotalPrice", "Total", "Price", "loop", "match", "x1", "text", "text_content",
 ];
 pub const ATTRS: &[&str] = &["p", "q", "id", "type", "xmlns:n", "n:q", "x-y", "Id", "text", "name", "xml:lang", "x:r", "xmlnsx:s"];
 
